@@ -235,16 +235,26 @@ Graphs == CASE Scope = "ext"  -> {Placed(ExtGraph(s, o), s.ef) : s \in SlotSpace
             [] Scope = "pick" -> {Placed(StdGraph(PickSlots(i % FullSize)), PickSlots(i % FullSize).ef) : i \in Pick}
             [] OTHER          -> {Placed(StdGraph(s), s.ef) : s \in SlotSpace}
 
-\* settings entries: [ver: version of the library_settings entry, pkg: version prefix of the method, m: "Svc.Rpc"]
-Entry(v, p, m) == [ver |-> v, pkg |-> p, m |-> m]
-Good(S) == {Entry(TargetVer, TargetVer, m) : m \in S}
-BadEntries == {Entry(TargetVer, TargetVer, "S1.Nope"),    \* unknown RPC of a known service
-               Entry(TargetVer, TargetVer, "S9.GetA"),    \* unknown service
-               Entry(TargetVer, "v2", "S1.GetA"),         \* method carrying another version prefix
-               Entry("v2", TargetVer, "S1.GetA")}         \* entry for another version listing this version's method
+\* settings: the service YAML holds a LIST of library_settings entries (blocks), each for one version and listing methods.
+\* One record per listed method: [blk: position of its block in the list, ver: version of the block, pkg: version prefix
+\* of the method, m: "Svc.Rpc"]
+Entry(b, v, p, m) == [blk |-> b, ver |-> v, pkg |-> p, m |-> m]
+Good(S) == {Entry(1, TargetVer, TargetVer, m) : m \in S}
+GoodAt(b, S) == {Entry(b, TargetVer, TargetVer, m) : m \in S}
+BadInOwnBlock == {Entry(1, TargetVer, TargetVer, "S1.Nope"),    \* unknown RPC of a known service
+                  Entry(1, TargetVer, TargetVer, "S9.GetA"),    \* unknown service
+                  Entry(1, TargetVer, "v2", "S1.GetA")}         \* method carrying another version prefix
+\* a block for another version: listing this version's method, or a method of that version (not part of the request)
+OtherBlock(b) == {Entry(b, "v2", TargetVer, "S1.GetA"), Entry(b, "v2", "v2", "S1.GetA")}
+BadSubsets == {{}, {"S1.GetA"}, {"S1.ListB", "S2.Other"}}
+BadChoices ==
+  {Good(S) \cup {x} : S \in BadSubsets, x \in BadInOwnBlock}
+  \cup {Good(S) \cup {x} : S \in BadSubsets, x \in OtherBlock(2)}                       \* own block first, then the other version's
+  \cup {GoodAt(2, S) \cup {x} : S \in BadSubsets \ {{}}, x \in OtherBlock(1)}            \* the other version's block first
+  \cup {Good({"S1.GetA"}) \cup GoodAt(2, {m}) : m \in {"S1.GetA", "S1.ListB"}}           \* two blocks for the same version
 EntryChoices(G) ==
   IF Scope = "bad"
-  THEN {Good(S) \cup {b} : S \in {{}, {"S1.GetA"}, {"S1.ListB", "S2.Other"}}, b \in BadEntries}
+  THEN BadChoices
   ELSE IF OneByOne     \* confluence run: every interleaving of single-node steps, for at most two listed RPCs
   THEN {Good(S) : S \in {T \in SUBSET RpcNames(G) : Cardinality(T) <= 2}}
   ELSE {Good(S) : S \in SUBSET RpcNames(G)}
@@ -260,7 +270,11 @@ Listed == {e.m : e \in {x \in entries : x.ver = TargetVer}}
 \* only the target version's API is part of the request, so a method of any other version is unknown
 Known(e) == e.pkg = TargetVer /\ e.m \in RpcNames(g)
 IsBad(e) == ~Known(e) \/ e.pkg # e.ver
-Bad == \E e \in entries : IsBad(e)
+\* named rule of the implementation (API.enforce_valid_library_settings: "Duplicate version"), not stated by the property:
+\* two blocks for the same version are rejected as well
+DupVersion == \E e1, e2 \in entries : e1.blk # e2.blk /\ e1.ver = e2.ver
+\* the verdict on an entry depends on the block it stands in, never on the order of the blocks or on other blocks
+Bad == (\E e \in entries : IsBad(e)) \/ DupVersion
 \* nothing listed for this version: the ordinary full library
 Sel == IF Listed = {} THEN "off" ELSE mode
 
@@ -360,6 +374,8 @@ TypeOK == /\ phase \in {"validate", "reach", "up", "closed", "done", "failed"}
 \* rejected iff a listed method is unknown or carries another version
 Inv_Fail == /\ (phase = "failed" => Bad)
             /\ (phase \notin {"validate", "failed"} => ~Bad)
+            /\ (phase # "validate" /\ (\E e \in entries : e.pkg # e.ver \/ ~Known(e)) => phase = "failed")
+            /\ (phase # "validate" /\ Bad => phase = "failed")
 \* the listed RPCs and everything the property's list reaches from them is kept ...
 Inv_Seeds == Closed /\ Sel = "prune" => Listed \subseteq reach
 Inv_ClosedDown == Closed /\ Sel = "prune" => \A x \in reach, y \in Nodes(g) : Down(g, x, y) => y \in reach
